@@ -189,6 +189,23 @@ def check(desc, rec, downstream=True, fortran=False, hang_s=20.0):
                     pass
                 executed = set(interp.exec_controller.executed_ids)
                 rec.count("downstream_interp_runs")
+            if len(dag.phases) > 1:
+                # ... and ONE interpreter that visits every phase in turn, there and back (what a run does)
+                interp = NumpyInterpreter(dag, {})
+                interp.set_up(0.0, 0.5, {})
+                names = sorted(dag.phases)
+                for pname in names + names[::-1]:
+                    interp.next_phase = pname
+                    try:
+                        ev = list(islice(interp.run_single_step(), 200))
+                    except (FailStepException, TransitionEvent):
+                        pass
+                    foreign = set(interp.exec_controller.executed_ids) - set(dag.phases[pname].id_to_stmt)
+                    rec.count("downstream_interp_phase_visits_one_interpreter")
+                    if foreign:
+                        rec.violation("downstream-interp-ran-statement-of-another-phase",
+                                      f"phase {pname}: executed ids {sorted(foreign)} are not statements of it", desc)
+                        return
     except CaseTimeout:
         rec.violation("downstream-interp-hang", "interpreter step on accepted method hung", desc)
         return
@@ -331,6 +348,14 @@ def rand_desc(rng):
             st = {"id": x, "kind": kind, "deps": deps}
             stmts.append(st)
         phases[p] = {"stmts": stmts, "next": rng.choice(pn)}
+    if share and nph > 1 and rng.random() < 0.5:
+        # every phase ends in a statement of the same name that gathers its loose ends (the phases then have the
+        # same root, reached through different statements)
+        for p in pn:
+            used = {d for st in phases[p]["stmts"] for d in st["deps"]}
+            loose = [st["id"] for st in phases[p]["stmts"] if st["id"] not in used]
+            phases[p]["stmts"].append({"id": "finish", "kind": "nop", "deps": loose})
+            allids[p].append("finish")
     if mode in ("cycle", "mixed"):
         # plant a cycle of random length along a path
         p = rng.choice(pn)
